@@ -115,13 +115,60 @@ def find_jump(f, a, b, n=2 ** 17, thresh=1e-9):
 
 
 def law_sweep(ctx, atm):
-    """Returns failures [(signature, what, case)] of the laws the property states, evaluated on the real code."""
+    """Returns failures [(signature, what, case)] of the laws the property states, evaluated on the real code.
+    An exception of the implementation on an admissible input ends the sweep and is itself a failing input."""
+    import traceback
     out = []
+    try:
+        n = _law_sweep_body(ctx, atm, out)
+    except Exception as e:  # noqa
+        tb = traceback.extract_tb(e.__traceback__)
+        where = next((f"{fr.name}:{fr.lineno}" for fr in reversed(tb) if "typhon" in fr.filename), "?")
+        mine = next((fr.line for fr in tb if fr.filename.endswith("c09.py") and fr.name == "_law_sweep_body"), "")
+        out.append(("law-raises:" + type(e).__name__, f"evaluating a law of the property on admissible arguments raised "
+                    f"{type(e).__name__}: {e} (in {where}; law: {str(mine)[:160]})", {"law": "raises", "exception": type(e).__name__}))
+        n = 0
+    return out, n
+
+
+def _law_sweep_body(ctx, atm, out):
     rng = np.random.default_rng(ctx.seed)
     n = ctx.n(2000, 200000)
     x = np.unique(np.concatenate([[0.0, 1e-15, 1e-9, 0.5, 0.999999], rng.random(n) ** 2 * 0.999999]))
     w = np.unique(np.concatenate([[0.0, 1e-12, 1.0, 1e4], 10 ** rng.uniform(-9, 3, n)]))
     tol = 1e-9
+    # array calls as a user makes them: the arguments are float64 ndarrays the caller goes on using.  Every function must
+    # leave them as they are (otherwise `vmr2relative_humidity(relative_humidity2vmr(RH, p, T), p, T) = RH` fails for the T
+    # the user holds) and must answer alike when called again with the same arrays
+    Tu = np.array([215.0, 250.16, 260.0, 273.16, 290.0, 310.0])
+    pu = np.array([2.0e4, 5.0e4, 7.0e4, 9.0e4, 1.0e5, 1.013e5])
+    xu = np.array([0.0, 1e-6, 1e-3, 0.02, 0.3, 0.6])
+    ru = np.array([0.1, 0.3, 0.5, 0.7, 0.9, 1.0])
+    pure_calls = [(f, [xu]) for f in ("vmr2mixing_ratio", "vmr2specific_humidity", "specific_humidity2mixing_ratio",
+                                        "specific_humidity2vmr", "mixing_ratio2vmr", "mixing_ratio2specific_humidity")] \
+        + [(f, [Tu]) for f in ("e_eq_water_mk", "e_eq_ice_mk", "e_eq_mixed_mk")] \
+        + [("relative_humidity2vmr", [ru, pu, Tu]), ("vmr2relative_humidity", [xu, pu, Tu]), ("moist_lapse_rate", [pu, Tu]),
+           ("relative_humidity2vmr", [ru, pu, Tu, atm.e_eq_mixed_mk]), ("vmr2relative_humidity", [xu, pu, Tu, atm.e_eq_mixed_mk]),
+           ("moist_lapse_rate", [pu, Tu, atm.e_eq_mixed_mk])]
+    for fname, args in pure_calls:
+        arrs = [np.array(a, dtype=np.float64) if isinstance(a, np.ndarray) else a for a in args]
+        before = [a.copy() if isinstance(a, np.ndarray) else a for a in arrs]
+        label = fname + ("" if len(args) < 3 or not callable(args[-1]) else "[e_eq=e_eq_mixed_mk]")
+        try:
+            r1 = np.array(getattr(atm, fname)(*arrs), dtype=float, copy=True)
+            changed = [k for k, (a, b) in enumerate(zip(arrs, before)) if isinstance(a, np.ndarray) and not np.array_equal(a, b)]
+            if changed:
+                k = changed[0]
+                out.append(("arguments-modified:" + fname, f"{label} modified the float64 array handed in as argument {k}: it held "
+                            f"{before[k][:3].tolist()}..., now {arrs[k][:3].tolist()}...", {"law": "arguments-untouched", "fn": label}))
+                continue
+            r2 = np.asarray(getattr(atm, fname)(*arrs), dtype=float)
+            if r1.shape != r2.shape or not np.array_equal(r1, r2, equal_nan=True):
+                out.append(("repeated-call-differs:" + fname, f"two identical consecutive calls of {label} on the same arrays differ",
+                            {"law": "arguments-untouched", "fn": label}))
+        except Exception as e:  # noqa
+            out.append(("array-call-raises:" + fname, f"{label} on ordinary float64 arrays raised {type(e).__name__}: {e}",
+                        {"law": "arguments-untouched", "fn": label}))
 
     def rel(a, b):
         return np.abs(a - b) / np.maximum(np.maximum(np.abs(a), np.abs(b)), 1e-300)
@@ -219,7 +266,7 @@ def law_sweep(ctx, atm):
     # right-hand side when the saturation mixing ratio is ~1e-20 (T near 100 K): allow 16 ulp of g/cp absolutely
     law("lapse-limit", ok & (np.abs(lapse - gd) > gd * b * wsat * (1 + 1e-9) + 16 * np.finfo(float).eps * gd), [p, T],
         "|lapse - g/cp| <= (g/cp) b w")
-    return out, 6 * x.size + 6 * w.size + 14 * T.size + 2 * (118 + 101)
+    return 6 * x.size + 6 * w.size + 14 * T.size + 2 * (118 + 101)
 
 
 def exact_fraction_check(atm):
